@@ -104,7 +104,7 @@ theorem push_bl : ∀ (x : SVal), noRaw x = true → ∀ (b : B) (path : String)
     · rw [push]
       have : blameDT ext path dt n md .none = [path] := by simp [blameDT, hi]
       rw [this]
-      exact pushNone_bl hg ha
+      exact pushNone_bl hg ha (by simp only [vsize] at hcap; exact hcap)
   | .unit, hraw => by
     intro b path dt n md hg ha hcap
     by_cases hi : (interpDT ext dt n md .unit).isOk = true
@@ -114,7 +114,7 @@ theorem push_bl : ∀ (x : SVal), noRaw x = true → ∀ (b : B) (path : String)
       unfold push
       split
       · exact Bl.ctx_self _ (by rw [ha.path]; exact List.mem_singleton.2 rfl) (NoCtx.bl _)
-      · exact pushNone_bl hg ha
+      · exact pushNone_bl hg ha (by simp only [vsize] at hcap; exact hcap)
   | .bool v, hraw => by
     intro b path dt n md hg ha hcap
     exact scalar_bl hg ha hraw hcap (by simp [blameDT]) (by rw [push])
@@ -142,7 +142,7 @@ theorem push_bl : ∀ (x : SVal), noRaw x = true → ∀ (b : B) (path : String)
       unfold push
       split
       · exact Bl.ctx_self _ (by rw [ha.path]; exact List.mem_singleton.2 rfl) (NoCtx.bl _)
-      · exact pushNone_bl hg ha
+      · exact pushNone_bl hg ha (by simp only [vsize] at hcap; exact hcap)
   | .bytes bs, hraw => by
     intro b path dt n md hg ha hcap
     by_cases hi : (interpDT ext dt n md (.bytes bs)).isOk = true
@@ -224,14 +224,15 @@ theorem push_bl : ∀ (x : SVal), noRaw x = true → ∀ (b : B) (path : String)
         obtain ⟨ufs, mode, rfl, _⟩ := hsh
         refine union_row_bl (i := i) (pc := fun c => match c with
             | .unknownVariant _ => ctx c.ann (SaModel.fail "Unknown variant does not support serialize_unit")
-            | _ => pushNone c) hg ha (fun hn => by simp [blameDT, hi', hn]) (fun tid nm cdt cn cmd c hufs hgc hac _ => ?_)
-          (fun c msg => ?_)
+            | _ => pushNone c) hg ha (fun hn => by simp [blameDT, hi', hn])
+          (by have := vsize_pos ext (.unitVariant a i vn); simp only [room] at hcap; omega)
+          (fun tid nm cdt cn cmd c hufs hgc hac hrc => ?_) (fun c msg => ?_)
         · have hS : blameDT ext path (.union ufs mode) n md (.unitVariant a i vn) = [path ++ "." ++ childName nm] := by
             simp [blameDT, hi', hufs]
           rw [hS]
           split
           · exact Bl.ctx_self _ (by rw [hac.path]; exact List.mem_singleton.2 rfl) (NoCtx.bl _)
-          · exact pushNone_bl hgc hac
+          · exact pushNone_bl hgc hac (by have := vsize_pos ext (.unitVariant a i vn); simp only [room] at hcap; omega)
         · split
           · rw [ann_eq_posAnn]; exact ctx_never_plain _ _ _
           · exact pushNone_never_plain c msg
@@ -253,6 +254,7 @@ theorem push_bl : ∀ (x : SVal), noRaw x = true → ∀ (b : B) (path : String)
         obtain ⟨ufs, mode, rfl, _⟩ := hsh
         simp only [room] at hcap
         refine union_row_bl (i := i) (pc := fun c => push ext c v) hg ha (fun hn => by simp [blameDT, hi', hn])
+          (by have := vsize_pos ext v; omega)
           (fun tid nm cdt cn cmd c hufs hgc hac hrc => ?_) (fun c msg => push_never_plain ext v c msg)
         have hS : blameDT ext path (.union ufs mode) n md (.newtypeVariant a i vn v) =
             (if (blameDT ext (path ++ "." ++ childName nm) cdt cn cmd v).isEmpty then [path]
@@ -283,7 +285,7 @@ theorem push_bl : ∀ (x : SVal), noRaw x = true → ∀ (b : B) (path : String)
         simp only [room] at hcap
         refine union_row_bl (i := i) (pc := fun c => ctx c.ann (seqLikeWith
             (fun large el offs => pushElems ext large el offs xs) (fun el c => pushCountElems ext el c xs)
-            (fun s => pushTupleElems ext s xs) (u8All xs) c .tupleStruct)) hg ha (fun hn => by simp [blameDT, hi', hn])
+            (fun s => pushTupleElems ext s xs) (u8All xs) c .tupleStruct)) hg ha (fun hn => by simp [blameDT, hi', hn]) (by omega)
           (fun tid nm cdt cn cmd c hufs hgc hac hrc => ?_)
           (fun c msg => by rw [ann_eq_posAnn]; exact ctx_never_plain _ _ _)
         exact Bl.mono (seqS_sub_tupleVariant hufs hi')
@@ -311,7 +313,7 @@ theorem push_bl : ∀ (x : SVal), noRaw x = true → ∀ (b : B) (path : String)
         obtain ⟨ufs, mode, rfl, _⟩ := hsh
         simp only [room] at hcap
         refine union_row_bl (i := i) (pc := fun c => ctx c.ann (recordWith (fun s => pushFields ext s fields) c)) hg ha
-          (fun hn => by simp [blameDT, hi', hn]) (fun tid nm cdt cn cmd c hufs hgc hac hrc => ?_)
+          (fun hn => by simp [blameDT, hi', hn]) (by omega) (fun tid nm cdt cn cmd c hufs hgc hac hrc => ?_)
           (fun c msg => by rw [ann_eq_posAnn]; exact ctx_never_plain _ _ _)
         exact Bl.mono (recS_sub_structVariant hufs hi') (recordLike_bl (pushFields_bl fields hraw') hgc hac (by omega))
       | bytes _ ty _ _ _ =>
@@ -347,9 +349,9 @@ theorem pushCountElems_bl : ∀ (xs : SVals), noRaws xs = true → CountBl ext x
       (pushCountElems_bl rest hraw'.2 el' (c + 1) cpath cdt cn cmd hg' (ha.push h') (by omega))
 theorem pushTupleElems_bl : ∀ (xs : SVals), noRaws xs = true → TupleBl ext xs
   | .nil, _ => by
-    intro k S path sfs s j hm hn hs _ _ hk
+    intro k S path sfs s j hm hn hs hcap _ hk
     rw [pushTupleElems]
-    exact hk s hm (by simpa [SVals.length] using hs)
+    exact hk s hm (by simpa [SVals.length] using hs) (by simp only [vsizes] at hcap; omega)
   | .cons x rest, hraw => by
     intro k S path sfs s j hm hn hs hcap hin hk
     have hraw' : noRaw x = true ∧ noRaws rest = true := by simpa [noRaws] using hraw
@@ -357,9 +359,9 @@ theorem pushTupleElems_bl : ∀ (xs : SVals), noRaws xs = true → TupleBl ext x
     have hlen : s.fields.length = sfs.toList.length := by
       rw [← BL.names_length, hm.names, List.length_map]
     have hk' : ∀ s', MidS path sfs s' → SeenIs s' ((sfs.toList.map Field.name).take (j + 1 + rest.length)) →
-        Blo S path (k s') := by
-      intro s' hm' hs'
-      refine hk s' hm' ?_
+        1 ≤ roomL s'.fields → Blo S path (k s') := by
+      intro s' hm' hs' hr'
+      refine hk s' hm' ?_ hr'
       have : j + (SVals.cons x rest).length = j + 1 + rest.length := by simp only [SVals.length]; omega
       rw [this]; exact hs'
     rw [pushTupleElems]
@@ -405,7 +407,7 @@ theorem pushTupleElems_bl : ∀ (xs : SVals), noRaws xs = true → TupleBl ext x
         obtain ⟨hgc', hroom⟩ := push_step hgc hraw'.1 (by omega) hpc
         have hroomL : roomL s.fields ≤ roomL (s.fields.set j c') + vsize ext x := roomL_set _ _ _ _ _ _ hget hroom
         refine pushTupleElems_bl rest hraw'.2 k S path sfs _ (j + 1) (hm.step hget hfj hgc' (hac.push hpc))
-          (.inl rfl) ?_ (show vsizes ext rest ≤ roomL (s.fields.set j c') by omega) ?_ hk'
+          (.inl rfl) ?_ (show vsizes ext rest + 1 ≤ roomL (s.fields.set j c') by omega) ?_ hk'
         · rw [htake]; exact SeenIs.step hm hs hname
         · intro q hq; apply hin; rw [hdrop]
           obtain ⟨fname, fdt, fn, fmd⟩ := f
@@ -425,9 +427,9 @@ theorem pushTupleElems_bl : ∀ (xs : SVals), noRaws xs = true → TupleBl ext x
         simp [blameNth] at hq
 theorem pushFields_bl : ∀ (fields : SFields), noRawf fields = true → FieldsBl ext fields
   | .nil, _ => by
-    intro k S path sfs s done hm hs _ _ _ hk
+    intro k S path sfs s done hm hs hcap _ _ hk
     rw [pushFields]
-    exact hk s hm (by simpa [fieldKeys, knownKeys] using hs)
+    exact hk s hm (by simpa [fieldKeys, knownKeys] using hs) (by simp only [vsizef] at hcap; omega)
   | .cons key al x rest, hraw => by
     intro k S path sfs s done hm hs hcap hdup hin hk
     have hraw' : noRaw x = true ∧ noRawf rest = true := by simpa [noRawf] using hraw
@@ -482,15 +484,15 @@ theorem pushFields_bl : ∀ (fields : SFields), noRawf fields = true → FieldsB
         obtain ⟨hgc', hroom⟩ := push_step hgc hraw'.1 (by omega) hpc
         have hroomL : roomL s.fields ≤ roomL (s.fields.set idx c') + vsize ext x := roomL_set _ _ _ _ _ _ hget hroom
         refine pushFields_bl rest hraw'.2 k S path sfs _ (done ++ [key]) (hm1.step hget hfj hgc' (hac.push hpc))
-          (SeenIs.step hm1 hs1 hname) (show vsizef ext rest ≤ roomL (s.fields.set idx c') by omega) ?_ ?_ ?_
+          (SeenIs.step hm1 hs1 hname) (show vsizef ext rest + 1 ≤ roomL (s.fields.set idx c') by omega) ?_ ?_ ?_
         · intro hd; apply hdup; simpa [List.append_assoc] using hd
         · intro q hq; apply hin; simp only [blameFields, List.mem_append]; exact .inr hq
-        · intro s' hm' hs'; apply hk s' hm'; simpa [List.append_assoc] using hs'
+        · intro s' hm' hs' hr'; exact hk s' hm' (by simpa [List.append_assoc] using hs') hr'
 theorem pushStructEntries_bl : ∀ (es : SEntries), noRawe es = true → EntriesBl ext es
   | .nil, _ => by
-    intro k S path sfs s done hm hs _ _ _ _ hk
+    intro k S path sfs s done hm hs hcap _ _ _ hk
     rw [pushStructEntries]
-    exact hk s hm (by simpa [entryKeys, knownKeys] using hs)
+    exact hk s hm (by simpa [entryKeys, knownKeys] using hs) (by simp only [vsizee] at hcap; omega)
   | .cons kx x rest, hraw => by
     intro k S path sfs s done hm hs hcap hdup hkeys hin hk
     have hraw' : (noRaw kx = true ∧ noRaw x = true) ∧ noRawe rest = true := by simpa [noRawe] using hraw
@@ -547,10 +549,10 @@ theorem pushStructEntries_bl : ∀ (es : SEntries), noRawe es = true → Entries
         refine pushStructEntries_bl rest hraw'.2 k S path sfs _ (done ++ [key])
           ((hm.step (nx := idx + 1) hget hfj hgc' (hac.push hpc)).next _)
           ((SeenIs.step (nx := idx + 1) hm hs hname).next _)
-          (show vsizee ext rest ≤ roomL (s.fields.set idx c') by omega) ?_ hkeys' ?_ ?_
+          (show vsizee ext rest + 1 ≤ roomL (s.fields.set idx c') by omega) ?_ hkeys' ?_ ?_
         · intro hd; apply hdup; simpa [List.append_assoc] using hd
         · intro q hq; apply hin; simp only [blameEntriesStruct, List.mem_append]; exact .inr hq
-        · intro s' hm' hs'; apply hk s' hm'; simpa [List.append_assoc] using hs'
+        · intro s' hm' hs' hr'; exact hk s' hm' (by simpa [List.append_assoc] using hs') hr'
 theorem pushMapEntries_bl : ∀ (es : SEntries), noRawe es = true → MapEntriesBl ext es
   | .nil, _ => by intro offs ks vs kp kdt kn kmd vp vdt vn vmd _ _ _ _ _ _; rw [pushMapEntries]; exact Bl.of_ok _
   | .cons kx x rest, hraw => by
